@@ -546,6 +546,7 @@ impl Clone for %s {
         txt = self.r23_deref_patterns(txt)
         txt = self.r24_take_while_map(txt)
         txt = self.r26_btree_next_after(txt)
+        txt = self.r28_keys_map(txt)
         return txt
 
     def r22_range_bounds(self, txt):
@@ -576,6 +577,33 @@ impl Clone for %s {
             recv = re.sub(r'\s+', '', m.group(1))
             return 'crate::vshim::btree_next_after(&%s, %s)' % (recv, m.group(2).strip()) + '\n' * m.group(0).count('\n')
         return re.sub(r'((?:self\s*\.\s*)?[a-z_][a-z0-9_]*)\s*\.range\(\(Excluded\(([^()]*)\),\s*Unbounded\)\)\s*\.next\(\)', rep, txt)
+
+    def r28_keys_map(self, txt):
+        # R28: `X.keys().map(F)` -> `vshim::iter_map(X.keys(), F)`: Iterator::map is a provided trait method returning an adapter type
+        # without vstd model; the shim holds the std call and is assumed to yield F(item) for every item, in order
+        sg = [t for t in lex(txt) if t.kind not in ('ws', 'comment')]
+        for i in range(len(sg) - 7):
+            if (sg[i].text == '.' and sg[i + 1].text == 'keys' and sg[i + 2].text == '(' and sg[i + 3].text == ')' and sg[i + 4].text == '.'
+                    and sg[i + 5].text == 'map' and sg[i + 6].text == '('):
+                d, close = 0, None
+                for j in range(i + 6, len(sg)):
+                    if sg[j].text in ('(', '[', '{'):
+                        d += 1
+                    elif sg[j].text in (')', ']', '}'):
+                        d -= 1
+                        if d == 0:
+                            close = j; break
+                # receiver: identifiers and dots going backwards
+                k = i
+                while k - 1 >= 0 and (sg[k - 1].kind == 'ident' or sg[k - 1].text == '.'):
+                    k -= 1
+                if close is None or k == i:
+                    continue
+                recv = txt[sg[k].start:sg[i + 3].end]
+                f_txt = txt[sg[i + 6].end:sg[close].start]
+                self.rules.hit('R28')
+                return self.r28_keys_map(txt[:sg[k].start] + 'crate::vshim::iter_map(' + recv + ',' + '\n' * txt[sg[i + 3].end:sg[i + 6].end].count('\n') + f_txt + ')' + txt[sg[close].end:])
+        return txt
 
     def r23_deref_patterns(self, txt):
         # R23: a reference pattern binding a Copy value in a match arm, `PATH(&NAME) => {` -> `PATH(NAME__verif_ref) => { let NAME = *NAME__verif_ref;`
@@ -910,8 +938,14 @@ impl Clone for %s {
         def rep(m):
             self.rules.hit('R13')
             return '%sfor %s in %s.iter_mut() {' % (m.group(1), m.group(2), m.group(3))
-        return re.sub(r'(^|\s)for\s+([A-Za-z_][A-Za-z0-9_]*)\s+in\s+&mut\s+((?:[A-Za-z_][A-Za-z0-9_]*\.)*[A-Za-z_][A-Za-z0-9_]*)\s*\{',
-                      rep, txt)
+        txt = re.sub(r'(^|\s)for\s+([A-Za-z_][A-Za-z0-9_]*)\s+in\s+&mut\s+((?:[A-Za-z_][A-Za-z0-9_]*\.)*[A-Za-z_][A-Za-z0-9_]*)\s*\{',
+                     rep, txt)
+        # shared form: `for PAT in &V {` -> `for PAT in V.iter() {` (std defines `<&C as IntoIterator>::into_iter` as `C::iter` for Vec, HashMap, ...)
+        def rep2(m):
+            self.rules.hit('R13')
+            return '%sfor %s in %s.iter() {' % (m.group(1), m.group(2), m.group(3))
+        return re.sub(r'(^|\s)for\s+(\([^()]*\)|[A-Za-z_][A-Za-z0-9_]*)\s+in\s+&((?:[A-Za-z_][A-Za-z0-9_]*\.)*[A-Za-z_][A-Za-z0-9_]*)\s*\{',
+                      rep2, txt)
 
     # --- splice
     def splice_fn(self, rel, addr, txt: str, it: Item, c: Optional[Contract], status, src_line, canary_mode=None) -> List[Seg]:
